@@ -89,8 +89,10 @@ pub fn allowed_set(k: usize) -> Vec<u16> {
     match k / 16 {
         1 => v.push(6),
         2 => v.extend([0, 11, 65535]),
+        // numbers that alias 5, 7, 9, 10 under the usual shortcuts (mod 16/32/64/128/256 masks and tables, byte swap)
+        3 => v.extend([21, 23, 25, 26, 37, 39, 41, 42, 69, 71, 73, 74, 133, 135, 137, 138, 261, 263, 265, 266, 0x0500, 0x0700, 0x0900, 0x0a00]),
         _ => {}
     }
     v
 }
-pub const NALLOWED: u64 = 48;
+pub const NALLOWED: u64 = 64;
